@@ -379,4 +379,15 @@ def run(facts, tier, ctx):
     ps.notes.append("SAFE entries not matched on this tree: %s" % sorted(set(safe) - used))
     ps.require_floor(8, "explicit panic constructs reachable from parser::stream")
     out.append(ps)
+
+    # --------------------------------------------------------------- FRAMING
+    # an altered frame must make the *stream* parse fail: frames are read until end of input with many_till(frame(_, true),
+    # eof); a combinator that turns a frame error into "no more frames" (many0, opt, complete ...) would accept the stream
+    # with the damaged frame (and everything after it) silently dropped.  Shared with C15's reader layout.
+    from . import c15
+    for r in c15.layout_frame_stream(facts):
+        r.rule = "FRAMING"
+        for f in r.findings:
+            f.rule = "FRAMING"
+        out.append(r)
     return out
